@@ -410,7 +410,8 @@ macro_rules! impl_bytes_mut_utils {
       let align_offset = crate::align_offset::<T>(self.allocated.ptr_offset + self.len as u32);
 
       // `align_offset` saturates (to a misaligned `u32::MAX`) when the aligned offset does not fit in a `u32`.
-      if align_offset > self.allocated.ptr_offset + self.allocated.ptr_size
+      // `T` is not zero sized here: a pointer at the end of the buffer has no byte of the buffer behind it.
+      if align_offset >= self.allocated.ptr_offset + self.allocated.ptr_size
         || align_offset & (mem::align_of::<T>() as u32 - 1) != 0
       {
         return Err(InsufficientBuffer::with_information((align_offset as u64 - self.len as u64 - self.allocated.ptr_offset as u64), (self.allocated.ptr_size as u64 - self.len as u64)));
